@@ -347,8 +347,11 @@ def mutability_flags(prog, rep, rule="E5.mut"):
         tr = None
         k = 0
         for b, t in f.body.calls():
-            d = callee_fn(t).get("rdef") or callee_fn(t)["def"]
-            d2 = callee_fn(t)["def"]
+            fr = callee_fn(t)
+            if fr is None:
+                continue               # indirect call (a closure value): not one of the variable-layer functions
+            d = fr.get("rdef") or fr["def"]
+            d2 = fr["def"]
             if not (re.search(_ADD_FN, d) or re.search(_ADD_FN, d2)):
                 continue
             if len(t["args"]) < 3:
@@ -401,14 +404,13 @@ SHRINK_OK = {
 }
 
 
-def no_dropped_elements(prog, rep, rule="E5.keep", files=("src/execution.rs", "src/execution/strict.rs", "src/execution/lazy.rs", "src/execution/lazy/statements.rs",
-                                                          "src/execution/lazy/store.rs", "src/execution/lazy/values.rs")):
+def no_dropped_elements(prog, rep, rule="E5.keep", files=("src/execution.rs", "src/execution/")):
     """the interpreters never remove, merge (dedup) or reorder elements of the collections they work on — statements, attribute
     lists, values, deferred work — except at the listed sites; a filtered or de-duplicated list silently skips work"""
     rep.rule(rule, "no element-dropping, de-duplicating or reordering call (remove/clear/truncate/pop/drain/retain/dedup/sort/reverse) in the interpreters outside the listed, reasoned sites")
     n = 0
     for f in sorted(prog.shape_fns(), key=lambda x: x.id):
-        if f.body is None or f.file not in files:
+        if f.body is None or not (f.file == files[0] or f.file.startswith(files[1])) or f.file.startswith("src/execution/error"):
             continue
         owner = (f.self_path or "").rsplit("::", 1)[-1]
         if f.kind == "closure" and f.parent in prog.fns:
@@ -418,7 +420,7 @@ def no_dropped_elements(prog, rep, rule="E5.keep", files=("src/execution.rs", "s
             if not is_callee(t, *_SHRINK):
                 continue
             n += 1
-            op = callee_fn(t)["def"].rsplit("::", 1)[-1]
+            op = (callee_fn(t) or {"def": "?"})["def"].rsplit("::", 1)[-1]
             k[op] = k.get(op, 0) + 1
             why = SHRINK_OK.get((owner, op))
             key = "%s :: %s #%d" % (f.id, op, k[op])
